@@ -374,6 +374,9 @@ func (t *tr) isNilIdent(e ast.Expr) bool {
 }
 
 func (t *tr) expr(e ast.Expr) string {
+	if s, ok := t.varsExpr(e); ok { // units_vars.go: declines for every unit but its own
+		return s
+	}
 	switch x := e.(type) {
 	case *ast.ParenExpr:
 		return t.expr(x.X)
@@ -864,6 +867,9 @@ func (t *tr) stmts(l []ast.Stmt, ind string, out *[]string) {
 func (t *tr) emit(out *[]string, ind, s string) { *out = append(*out, ind+s) }
 
 func (t *tr) stmt(s ast.Stmt, ind string, out *[]string) {
+	if t.varsStmt(s, ind, out) { // units_vars.go: declines for every unit but its own
+		return
+	}
 	switch x := s.(type) {
 	case *ast.BlockStmt:
 		t.stmts(x.List, ind, out)
